@@ -443,17 +443,21 @@ func compileStruct(typ *runtime.Type, structName, fieldName string, structTypeTo
 		}
 	}
 	foldMap := map[string]*structFieldSet{}
-	for _, set := range filterDuplicatedFields(allFields) {
+	fields := filterDuplicatedFields(allFields)
+	for _, set := range fields {
 		fieldMap[set.key] = set
-		lower := strings.ToLower(set.key)
-		if _, exists := fieldMap[lower]; !exists {
-			// first win
-			fieldMap[lower] = set
-		}
 		if folded := foldName(set.key); foldMap[folded] == nil {
 			// case-insensitive matches go to the first field in declaration order, even when a
 			// later field is spelled exactly like the lower-cased name
 			foldMap[folded] = set
+		}
+	}
+	for _, set := range fields {
+		// the lower-cased spelling of a name is a shortcut to the field a case-insensitive match
+		// selects — which is the first of its folding class, not necessarily this field ("ſ" before "S")
+		lower := strings.ToLower(set.key)
+		if _, exists := fieldMap[lower]; !exists {
+			fieldMap[lower] = foldMap[foldName(lower)]
 		}
 	}
 	structDec.foldMap = foldMap
